@@ -425,13 +425,20 @@ func genCase(t *rapid.T) (*Case, *genInfo) {
 	reject := g.chance(30, "rejectIntent")
 	family := "expr"
 	switch p := g.intn(100, "family"); {
-	case p >= 80:
+	case p >= 92:
+		family = "ctx"
+	case p >= 74:
 		family = "iota"
-	case p >= 52:
+	case p >= 48:
 		family = "decls"
 	}
 	c.Origin = family
 	g.label("family:" + family)
+	if family == "ctx" {
+		g.label("intent:accept")
+		g.smallCtx(c)
+		return c, &genInfo{labels: g.labels}
+	}
 	faultKind := ""
 	if reject {
 		g.label("intent:reject")
@@ -624,5 +631,62 @@ func (g *gen) topLevelFault() *node {
 		return raw(fmt.Sprintf("(%s) + %s", n, g.intLitOf(g.bigBits(70+g.intn(100, "bits")))), kInt)
 	default:
 		return raw(fmt.Sprintf("'a' << %d", g.pick2(25, 26, 31, 40, 64)), kRune)
+	}
+}
+
+// smallCtx builds a case where an untyped constant expression over small
+// operands meets a declared type: var v T = e, f(e) with a parameter of type
+// T, or const c T = e. All the intermediate values are small, so that the only
+// thing exercised is how the expected type interacts with the folding of the
+// untyped operands (integer quotients in a float context, parenthesised
+// operands, mixed integer and float literals).
+func (g *gen) smallCtx(c *Case) {
+	T := g.pick("ctxT", "float64", "float32", "complex128", "complex64", "float64", "int", "int32", "uint8", "int64", "uint")
+	intT := intWidth[T] != 0
+	var build func(d int) *node
+	leaf := func() *node {
+		if !intT && g.chance(25, "ctxfloat") {
+			return g.modestFloat()
+		}
+		return g.intLitOf(big.NewInt(int64(1 + g.intn(24, "ctxleaf"))))
+	}
+	build = func(d int) *node {
+		if d <= 0 || g.chance(20, "ctxstop") {
+			return leaf()
+		}
+		ops := []string{"/", "/", "+", "-", "*"}
+		if intT {
+			ops = append(ops, "%", "&", "|", "^", "<<")
+		}
+		op := ops[g.intn(len(ops), "ctxop")]
+		l, r := build(d-1), build(d-1)
+		if op == "<<" {
+			r = g.intLitOf(big.NewInt(int64(g.intn(4, "ctxshift"))))
+		}
+		n := &node{op: "bin", tok: op, kids: []*node{l, r}}
+		if g.chance(10, "ctxneg") {
+			n = &node{op: "un", tok: "-", kids: []*node{n}}
+		}
+		return n
+	}
+	var n *node
+	for try := 0; try < 8; try++ {
+		n = build(1 + g.intn(3, "ctxdepth"))
+		if tv, ok := n.eval(0); ok && !tv.ct.typed {
+			if _, ok := fit(tv.v, T); ok {
+				break
+			}
+		}
+		n = leaf()
+	}
+	switch p := g.intn(100, "ctxform"); {
+	case p < 45:
+		c.Obs = append(c.Obs, Obs{Form: "typed", T: T, Expr: n.String()})
+	case p < 65:
+		c.Obs = append(c.Obs, Obs{Form: "arg", T: T, Expr: n.String()})
+	default:
+		name := g.newName("c")
+		c.Decls = append(c.Decls, "const "+name+" "+T+" = "+n.String())
+		c.Obs = append(c.Obs, Obs{Form: "var", Expr: name})
 	}
 }
